@@ -543,7 +543,14 @@ def dsk2(ctx, c):
         k = ("adv", adv)
         if k not in seen:
             seen.add(k)
-            if adv is None or adv == 0:
+            all_advs = {(x.path.env.get("pointer").c if isinstance(x.path.env.get("pointer"), Lin) and x.path.env.get("pointer").terms == {"E": 1} else None)
+                        for x in outs if x.kind == "fall"}
+            unchanged = adv == 0 or (adv is None and repr(pv) == "<E>")
+            if unchanged and any(isinstance(a_, int) and a_ > 0 for a_ in all_advs):
+                c.finding("list_files:advance", "one path through the loop body leaves the running pointer where it was",
+                          "list_files walks the directory with a running pointer, but on one path (a free entry) the pointer is not advanced: every later iteration looks at the same "
+                          "entry again, so the files stored behind a deleted or unused entry are never listed", wl)
+            elif adv is None or adv == 0:
                 # no running pointer (entries addressed as base + 32 * n, judged through the field offsets below)
                 c.undecided("list_files:advance", "no-running-pointer", repr(pv), wl)
             else:
